@@ -518,6 +518,51 @@ example :
 example : "stopWhen" ∉ specialForms ∧ (exE.macros "stopWhen").isSome = true := by decide
 end CtxExamples
 
+/-! ### a function that rebinds its own name through a macro
+Since /repo 70c349a a function whose body binds or assigns its own name is compiled with
+funcname = "" (`rebindsOwnName`): calls of the name are ordinary calls of the new binding. The
+scan reads the body *as written*: a binding made by a macro expansion is not seen, the call
+stays a jump — the macro call no longer equals the hand-written form (found by `sq k`;
+fixes/C15-04 lets the scan follow expansions; `CEnv.scanExpansions` is read off the source by
+the extractor on every run, so the model follows whichever code is there). -/
+
+section Rebinding
+/-- `(defmac defv [v x] ^(def ~v ~x))` -/
+def defv : Macro :=
+  { params := ["v", "x"], body := (Tmpl.list [.lit (.sym "def"), .unquote (sym "v"), .unquote (sym "x")]).toSexp }
+def rbE (scan : Bool) : CEnv :=
+  { mkHash := exH.mkHash, macros := fun f => if f = "defv" then some defv else none,
+    builtin := fun _ => false, scanExpansions := scan }
+/-- `(defn g [n] □ (g n))` -/
+def defG (hole : Sexp) : Sexp :=
+  lst [sym "defn", sym "g", .arr (lst [sym "n"]), hole, lst [sym "g", sym "n"]]
+
+/-- **Pre-fix (scan of the written body only).** `(defn g [n] (defv g 7) (g n))` compiles the
+call `(g n)` as a tail jump, `(defn g [n] (def g 7) (g n))` as an ordinary call: the macro call
+does not equal the hand-written form. -/
+theorem C15_counterexample_rebinding_through_macro :
+    genProgram (rbE false) 50 [defG (lst [sym "defv", sym "g", num 7])]
+      = some [.fnOpen, .prepCall 1, .remScope, .goto0, .remScope, .fnClose]
+    ∧ genProgram (rbE false) 50 [defG (lst [sym "def", sym "g", num 7])]
+      = some [.fnOpen, .callX "g" 1, .remScope, .fnClose] := by
+  decide
+
+/-- With the scan following expansions (fixes/C15-04) both compile to the ordinary call. -/
+theorem rebinding_through_macro_repaired :
+    genProgram (rbE true) 50 [defG (lst [sym "defv", sym "g", num 7])]
+      = genProgram (rbE true) 50 [defG (lst [sym "def", sym "g", num 7])] := by
+  decide
+
+/-- In general: when the scan follows expansions, a macro call binds whatever its expansion
+binds — at any nesting, for any macro. -/
+theorem rebinding_sees_expansion (E : CEnv) (name f : String) (args : Sexp) (as : List Sexp) (m : Macro)
+    (x : Sexp) (n : Nat) (hscan : E.scanExpansions = true) (hm : E.macros f = some m)
+    (ha : listToArray args = some as) (hx : expand E.mkHash m as = some x)
+    (hb : bindsName E name n x = true) :
+    bindsName E name (n + 1) (.cons (.atom (.sym f)) args) = true := by
+  simp [bindsName, ha, hscan, hm, hx, hb]
+end Rebinding
+
 /-! ### tie T1 for the two strengthenings (`Generated/SQCtx.lean`, regenerated every run) -/
 
 /-- Inside the syntax-quote generator exactly one instruction pushes a template object as a
@@ -549,6 +594,7 @@ theorem emit_ctx_writes : Generated.SQCtx.ctxWrites =
      "GenerateBegin|set:gen.Tail=false", "GenerateBegin|set:gen.Tail=oldtail",
      "buildSexpFun|new:gen=NewGenerator", "buildSexpFun|set:gen.Tail=true",
      "buildSexpFun|set:gen.funcname=env.GenSymbol(\"__anon\").name", "buildSexpFun|set:gen.funcname=name",
+     "buildSexpFun|set:gen.funcname=\"\"",
      "GenerateDef|set:gen.Tail=false",
      "GenerateShortCircuit|new:subgen=gen.NewSubGenerator", "GenerateShortCircuit|set:subgen.scopes=gen.scopes",
      "GenerateShortCircuit|set:subgen.Tail=gen.Tail", "GenerateShortCircuit|set:subgen.funcname=gen.funcname",
